@@ -26,6 +26,8 @@ const c14Rule = "Each case = one raftlog DB with 1-4 scopes (controller / adjace
 	"Non-trivial = the case contains >=1 conflicting overwrite, >=1 snapshot that compacts, and >=1 reopen or crash image; " +
 	"distinct = family + scope count + per-scope sequence of call kinds (no payload bytes)."
 
+const c14RuleRef = "Same generator, reference and comparisons as unit model (see its rule)."
+
 func c14Opts(rng *rand.Rand) (raftlog.Options, int) {
 	var o raftlog.Options
 	o.WriteBatchMaxWait = []time.Duration{20 * time.Microsecond, 50 * time.Microsecond, 200 * time.Microsecond, time.Millisecond}[rng.IntN(4)]
@@ -123,7 +125,7 @@ func TestVerifC14Model(t *testing.T) {
 func TestVerifC14Concurrent(t *testing.T) {
 	r := verifkit.Start(t, "C14", "concurrent")
 	defer r.Finish()
-	r.SetRule(c14Rule + " This unit: one goroutine per scope, concurrent writers, -race; in fault cases a call of another scope may fail a valid call (allowed error): the state must be unchanged and the call is retried.")
+	r.SetRule(c14RuleRef + " This unit: one goroutine per scope, concurrent writers, -race; in fault cases a call of another scope may fail a valid call (allowed error): the state must be unchanged and the call is retried.")
 	c14RunFamily(t, r, c14Family{id: "concurrent", stream: 2, workers: 4, mk: func(rng *rand.Rand, i int) c14CaseCfg {
 		opts, chunk := c14Opts(rng)
 		if rng.IntN(2) == 0 {
@@ -143,7 +145,7 @@ func TestVerifC14Concurrent(t *testing.T) {
 func TestVerifC14Crash(t *testing.T) {
 	r := verifkit.Start(t, "C14", "crash")
 	defer r.Finish()
-	r.SetRule(c14Rule + " This unit: crash images; per scope the recovered state must equal the reference after j calls with (calls returned before the image) <= j <= (calls issued after it).")
+	r.SetRule(c14RuleRef + " This unit: crash images; per scope the recovered state must equal the reference after j calls with (calls returned before the image) <= j <= (calls issued after it).")
 	r.Assume("snapshot chunk directories live on the real file system and are not crash-simulated: images are checked against a chunk root that is never garbage collected (1h grace), relying on publish-before-commit")
 	c14RunFamily(t, r, c14Family{id: "crash", stream: 3, workers: 8, mk: func(rng *rand.Rand, i int) c14CaseCfg {
 		opts, chunk := c14Opts(rng)
@@ -170,7 +172,7 @@ func TestVerifC14Crash(t *testing.T) {
 func TestVerifC14StaleSuffix(t *testing.T) {
 	r := verifkit.Start(t, "C14", "stalesuffix")
 	defer r.Finish()
-	r.SetRule(c14Rule + " This unit: histories that additionally contain snapshot installs strictly inside an uncommitted stale suffix.")
+	r.SetRule(c14RuleRef + " This unit: histories that additionally contain snapshot installs strictly inside an uncommitted stale suffix.")
 	c14RunFamily(t, r, c14Family{id: "stalesuffix", stream: 4, workers: 4, mk: func(rng *rand.Rand, i int) c14CaseCfg {
 		opts, chunk := c14Opts(rng)
 		return c14CaseCfg{family: "stalesuffix", nScopes: 1 + rng.IntN(2), phases: 2 + rng.IntN(3), opsPerPh: 6 + rng.IntN(12),
